@@ -48,7 +48,24 @@ def _len(I, obj, args, kwargs):
     return SInt(n)
 
 
+def as_symiter(I, obj):
+    """elements of an accumulator of unknown history, for loops / generators over it"""
+    from .values import SOpaque, usort
+
+    def mk(I2):
+        adds = obj.fields["added"]
+        k = I2.ctx.choose(len(adds) + 1, "acc-elem")
+        if k < len(adds):
+            return adds[k]
+        mk0 = obj.fields.get("mk_earlier")
+        if mk0 is not None:
+            return mk0(I2)
+        return SOpaque("pyobject", I2.ctx.fresh("earlier_elem", usort("pyobject")))
+    return TheoryObj("symiter", label=f"elements-of({obj.label})", fields={"mk": mk, "of_acc": obj})
+
+
 def install(reg):
+    reg.theory_methods[("acc", "__iter__")] = lambda I, o, a, k: as_symiter(I, o)
     reg.theory_methods[("acc", "__len__")] = _len
     reg.theory_methods[("acc", "append")] = _add
     reg.theory_methods[("acc", "add")] = _add
